@@ -152,6 +152,9 @@ def describe(rec, row):
         b, l, e = undigits(rec["B"]), undigits(rec["L"]), undigits(rec["E"])
         out = tuple(undigits(rec[k]) for k in ("N", "I", "Al", "As"))
         return "w %d %d %d" % (b, l, e), "B=%d L=%d E=%d -> (N,I,A_large,A_small)=%s" % (b, l, e, out)
+    if rec["e"] == "crash":
+        b, l, e = undigits(rec["B"]), undigits(rec["L"]), undigits(rec["E"])
+        return "w %d %d %d" % (b, l, e), "B=%d L=%d E=%d -> crash (signal) inside of_compute_blocking_struct" % (b, l, e)
     l = rec["L0"] + row - 1
     return ("g %d %d %d 1" % (rec["B"], rec["E"], l),
             "B=%d L=%d E=%d -> (N,I,A_large,A_small)=%s" % (rec["B"], l, rec["E"], tuple(rec["rows"][row - 1])))
